@@ -9,7 +9,7 @@
 From Coq Require Import String Ascii ZArith List Bool Lia.
 From Coq Require Import ZifyBool.
 From Acme.C10 Require Import DbcDoc BusModel Import Proofs ProofsEnum ProofsLayout ProofsFaithful ProofsMux ProofsExtMux ProofsIds
-  ProofsEnumMux ProofsExtAbs ProofsAttrs ProofsAttrsAll ProofsAttrsSig ProofsDecodeMux.
+  ProofsEnumMux ProofsExtAbs ProofsAttrs ProofsAttrsAll ProofsAttrsSig ProofsDecodeMux ProofsGroups.
 From Acme.C10 Require Import ProofsAttrsExact ProofsSigMap ProofsAttrsSigExact.
 Import ListNotations.
 Open Scope Z_scope.
@@ -158,6 +158,28 @@ Proof.
     split; [rewrite D2; apply sig_comment_env|]. split; [intros Hc; discriminate Hc|]. split.
     + intros _ Hv. split; [exact (D3 Hv)|]. destruct (Henum (D3 Hv)) as [vals [E1 [E2 _]]]. exists vals. auto.
     + intros _ Hv. destruct (D4 Hv) as [K1 [_ K3]]. split; [exact K1|exact K3].
+Qed.
+
+(* C10 as one statement: a successful import is a FAITHFUL and VALID model of the file *)
+Theorem import_faithful_valid : forall d b, switch_sizes_ok d -> import d = Ok b ->
+  (* faithful: nodes, message heads, every signal *)
+  map n_name (b_nodes b) =
+    filter not_dummy (d_nodes d) ++ (if existsb (fun dm => String.eqb (dm_tx dm) dummy_node) (d_messages d) then [dummy_node] else []) /\
+  map msg_head (b_messages b) = map dmsg_head (d_messages d) /\
+  (exists se, (forall k, (exists e, lookup key_eqb k se = Some e) <-> has_valenc d k) /\
+     Forall2 (fun dm m => forall ds, In ds (dm_signals dm) -> faithful_sig d b se dm m ds) (d_messages d) (b_messages b)) /\
+  (* valid: unique node names and CAN-IDs, sender and receivers resolved, sizes; signal names and ids unique at every depth;
+     top-level layout and the layout inside every multiplexer *)
+  NoDup (map n_name (b_nodes b)) /\ NoDup (map m_canid (b_messages b)) /\
+  Forall (msg_valid (map n_name (b_nodes b))) (b_messages b) /\
+  Forall2 (fun dm m => names_ids_ok dm (m_signals m)) (d_messages d) (b_messages b) /\
+  Forall (fun m => tops_valid (b_enums b) (m_size m * 8) (m_signals m)) (b_messages b) /\
+  Forall (fun m => ProofsGroups.groups_valid (b_enums b) (m_signals m)) (b_messages b).
+Proof.
+  intros d b Hsz H.
+  destruct (import_valid d b H) as [V1 [V2 V3]].
+  refine (conj (import_nodes_thm d b H) (conj (import_messages_heads d b H) (conj (import_faithful_full d b Hsz H)
+          (conj V1 (conj V2 (conj V3 (conj (import_names_ids_unique d b H) (conj (ProofsLayout.import_layout_valid d b H) (ProofsGroups.import_group_layout_valid d b H))))))))).
 Qed.
 
 (* the hypothesis is satisfiable: the example document of Proofs.v (it has no multiplexor switch at all), and a
